@@ -1,8 +1,19 @@
 #!/bin/bash
-# usage: try_mutant.sh <patch.diff> <Cxx> [check args...]  -- applies the patch to /repo, runs the check, reverts
+# usage: try_mutant.sh <patch.diff> <Cxx> [check args...]
+# Runs the check against a tree with the patch applied. By default the patch is applied to a scratch worktree of
+# /repo HEAD and the check is pointed at it with VERIF_REPO (safe while other runs read /repo); with IN_REPO=1 the
+# patch is applied to /repo itself and reverted afterwards (git checkout -- .), as the task description does.
 set -u
 patch=$(readlink -f "$1"); prop=$2; shift 2
-cd /repo && git apply "$patch" || { echo "PATCH DOES NOT APPLY"; exit 9; }
-cd /verif && ./check "$prop" "$@" 2>&1 | grep -v "^   " | tail -8; rc=${PIPESTATUS[0]}
-git -C /repo checkout -- . 
+if [ "${IN_REPO:-0}" = 1 ]; then
+  cd /repo && git apply "$patch" || { echo "PATCH DOES NOT APPLY"; exit 9; }
+  cd /verif && ./check "$prop" "$@" 2>&1 | grep -v "^   " | tail -8; rc=${PIPESTATUS[0]}
+  git -C /repo checkout -- .
+else
+  wt=/tmp/tm_$$
+  git -C /repo worktree add -f $wt HEAD >/dev/null 2>&1 || { echo "worktree failed"; exit 9; }
+  (cd $wt && git apply "$patch") || { echo "PATCH DOES NOT APPLY"; git -C /repo worktree remove --force $wt; exit 9; }
+  cd /verif && VERIF_REPO=$wt ./check "$prop" "$@" 2>&1 | grep -v "^   " | tail -8; rc=${PIPESTATUS[0]}
+  git -C /repo worktree remove --force $wt >/dev/null 2>&1; rm -rf $wt
+fi
 echo "exit=$rc"
